@@ -653,7 +653,27 @@ def emit_write_graph(repo, tier="quick"):
             mode = "smiles" if F else "cg"
             need_sym = NEW and SR
             problem = None
-            if "?" in s or "U" in s or "!" in s:
+            # the symbol of a ring bond and its marker go into the same string: a marker that is deferred to after the loop with
+            # its symbol written at once (or the other way round) separates the two by whatever is written in between
+            in_defer = []
+            j = 0
+            while j < len(word):
+                t_ = word[j]
+                if t_[0] == "DEFER":
+                    for t2_ in word[j + 1:j + 1 + t_[2]]:
+                        in_defer.append((t2_, t_[1]))
+                    j += 1 + t_[2]
+                else:
+                    in_defer.append((t_, None))
+                    j += 1
+            sym_acc = {a for t_, a in in_defer if t_[0] == "SYM"}
+            mark_acc = {a for t_, a in in_defer if t_[0] == "MARK"}
+            if sym_acc and mark_acc and sym_acc != mark_acc:
+                problem = ("ring-symbol-split", "the order symbol of a ring bond and its marker are written to different strings (%s / %s): the symbol ends up in front "
+                                                "of another marker of the node" % (sorted(str(a) for a in sym_acc), sorted(str(a) for a in mark_acc)))
+            if problem:
+                pass
+            elif "?" in s or "U" in s or "!" in s:
                 problem = ("unknown", "an emitted piece cannot be classified: %s" % " ".join(t[0] for t in word))
             elif need_sym and "Y" not in s:
                 problem = ("ring-symbol-missing", "a new ring marker whose bond needs an order symbol is written without it (%s mode)" % mode)
